@@ -522,7 +522,11 @@ class BytesIO(IOBase):
         :param nbytes: the number of expected bytes
         :return: the returned bytes
         """
-        return self._conn.readbytes(nbytes, self.timeout)
+        try:
+            return self._conn.readbytes(nbytes, self.timeout)
+        except ConnectionClosed:
+            self.closeConnection()
+            raise CommunicationFailedError('disconnected') from None
 
     def getFullReply(self, request, replyheader):
         """to be overwritten in case the reply length is variable
